@@ -248,6 +248,27 @@ example : knn (1000 : ℤ) 2 exP exIndex (fun j => if j = 0 then 3 else 3) 2 = [
   decide
 example : ∀ x < 4, sqDist 2 (fun j => if j = 0 then (3 : ℤ) else 3) exP x < 1000 := by decide
 
+/-- The bound clauses of `WF` are NECESSARY, and they are what "conservative" means for a stored
+    split bound: `divlow` must not lie below a point of the left subtree (nor `divhigh` above a
+    point of the right one).  The same index with `divlow = -2` stored instead of `1` (a bound that
+    was rounded the wrong way — e.g. narrowed to a shorter float type and rounded to nearest, as in
+    seeded change c08b) over-estimates the distance to the left child (`cut_dist = 25 > 5`), the
+    subtree is skipped and the query returns point 1 at squared distance 5 although point 2 is at 4.
+    In the model the bounds are values of the scalar type `α` itself (`divideTree` copies
+    `left_bbox[cutfeat].high` / `right_bbox[cutfeat].low`, no conversion), which is why `build_wf`
+    and hence `kdtree_correct` hold for EVERY data set `P` and query `q` — point sets with a large
+    common offset (map / UTM frames) are not a special case of the theorems. -/
+def exIndexLowBound : Index ℤ :=
+  { exIndex with root := .node 0 (-2) 4 (.leaf 0 2) (.leaf 2 4) }
+
+example : knn (1000 : ℤ) 2 exP exIndexLowBound (fun j => if j = 0 then 3 else 3) 1 = [(5, 1)] := by
+  decide
+example : knn (1000 : ℤ) 2 exP exIndex (fun j => if j = 0 then 3 else 3) 1 = [(4, 2)] := by
+  decide
+example : ¬ WF 2 exP exIndexLowBound.vind exIndexLowBound.root := by
+  simp only [exIndexLowBound, exIndex, WF, points]
+  decide
+
 /-- `build_wf` / `kdtree_correct` at a concrete instance: twelve collinear points over `ℚ`
     (more than one leaf), dimension 2 -/
 example : WellFormed 2 (fun i j => if j = 0 then (i : ℚ) else 0) 12
